@@ -39,11 +39,11 @@ def fillTail {F} (ops : FieldOps F) (base : F) : Nat → F → List F
   | 0, _ => []
   | k + 1, prev => ops.mul prev base :: fillTail ops base k (ops.mul prev base)
 
-/-- `fill_power_series(result, base, start)` on a slice of length `len`:
-`result[0] = start` is an out-of-bounds index when the slice is empty -/
+/-- `fill_power_series(result, base, start)` on a slice of length `len`: returns immediately on an
+empty slice (`if result.is_empty() { return; }`), otherwise `result[0] = start` and the loop -/
 def fillPowerSeries {F} (ops : FieldOps F) (len : Nat) (base start : F) : Option (List F) :=
   match len with
-  | 0 => none
+  | 0 => some []
   | k + 1 => some (start :: fillTail ops base k start)
 
 /-- `get_power_series(b, n)`; `exp` is the field's `exp` -/
